@@ -48,6 +48,7 @@ type cacheWorld struct {
 	spe     uint64
 	slots   []uint64
 	fail    uint64
+	f       faults
 	hist    *history
 	minSlot uint64 // of the current repetition, by the documented 64-epoch retention
 }
@@ -82,9 +83,18 @@ func execHashOf(i uint64) phase0.Hash32 {
 
 type cacheBlocks struct{ w *cacheWorld }
 
+// headBlockFails: the cache fetches the head block from a context of its own,
+// so the root and the clock of the repetition identify the call.
+func (w *cacheWorld) headBlockFails(root uint64) bool {
+	return w.f.hit("headblock-err", w.clock.slot.Load()<<8^root)
+}
+
 func (b cacheBlocks) SignedBeaconBlock(_ context.Context, opts *api.SignedBeaconBlockOpts) (*api.Response[*spec.VersionedSignedBeaconBlock], error) {
 	for i := range b.w.slots {
 		if rootOf(uint64(i)).String() == opts.Block {
+			if b.w.headBlockFails(uint64(i)) {
+				return nil, strErr("scripted block failure")
+			}
 			return &api.Response[*spec.VersionedSignedBeaconBlock]{Data: &spec.VersionedSignedBeaconBlock{
 				Version: spec.DataVersionDeneb,
 				Deneb: &deneb.SignedBeaconBlock{Message: &deneb.BeaconBlock{Body: &deneb.BeaconBlockBody{ExecutionPayload: &deneb.ExecutionPayload{
@@ -99,7 +109,7 @@ func (b cacheBlocks) SignedBeaconBlock(_ context.Context, opts *api.SignedBeacon
 }
 
 func buildCache(sc *Scenario) (world, error) {
-	w := &cacheWorld{sc: sc, spe: sc.P["spe"], fail: sc.P["fail"], hist: newHistory(len(sc.Roles))}
+	w := &cacheWorld{sc: sc, spe: sc.P["spe"], fail: sc.P["fail"], f: newFaults(sc.P), hist: newHistory(len(sc.Roles))}
 	for i := uint64(0); i < sc.P["n"]; i++ {
 		w.slots = append(w.slots, sc.P[fmt.Sprintf("r%d", i)])
 	}
@@ -172,7 +182,7 @@ type cacheOut struct {
 	height uint64
 }
 
-func (w *cacheWorld) run(_ int, ri int, _ *Role, op *Op) {
+func (w *cacheWorld) run(_ int, ri int, _ *Role, op *Op, _ uint64) {
 	ctx := context.Background()
 	root := op.A % uint64(len(w.slots))
 	in := cacheIn{op: op.K, root: root, slot: w.slots[root], fail: w.fail&(1<<uint(root)) != 0}
@@ -185,6 +195,7 @@ func (w *cacheWorld) run(_ int, ri int, _ *Role, op *Op) {
 		w.svc.SetBlockRootToSlot(rootOf(root), phase0.Slot(w.slots[root]))
 		in.op = "block"
 	case "head":
+		in.fail = w.headBlockFails(root)
 		w.onHead(&apiv1.Event{Topic: "head", Data: &apiv1.HeadEvent{Slot: phase0.Slot(w.slots[root]), Block: rootOf(root)}})
 	case "lookup":
 		slot, err := w.svc.BlockRootToSlot(ctx, rootOf(root))
@@ -271,6 +282,9 @@ func (w *cacheWorld) judge(t ev.TB, sc *Scenario) {
 			in := input.(cacheIn)
 			out := output.(cacheOut)
 			if in.op == "head" {
+				if in.fail {
+					return true, state // the block could not be fetched: nothing changes
+				}
 				return true, reg{hash: execHashOf(in.root), height: 1000 + in.root}
 			}
 			st := state.(reg)
@@ -331,6 +345,7 @@ func init() {
 			p["spe"] = rapid.SampledFrom([]uint64{2, 8, 32}).Draw(t, "spe")
 			p["epoch"] = rapid.SampledFrom([]uint64{0, 60, 64, 65, 70, 200}).Draw(t, "epoch")
 			p["estep"] = rapid.SampledFrom([]uint64{0, 1, 1, 3, 20}).Draw(t, "estep")
+			genFaults(t, p)
 			p["fill"] = rapid.SampledFrom([]uint64{0, 300, 3000}).Draw(t, "fill")
 			n := rapid.Uint64Range(1, 6).Draw(t, "nRoots")
 			p["n"] = n
